@@ -296,7 +296,20 @@ func (x *Exec) dispatch(s *State, e *ast.CallExpr, c callee, recv *Val, args []V
 	}
 	var rules []callSiteRule
 	for _, r := range tc.CallSites {
-		if r.callee == cname || (c.fn != nil && r.callee == objKey(c.fn)) {
+		// a rule names: a plain function or closure variable ("writeFileAtomic", "setState"), an interface
+		// method ("Recv"), or a method of a concrete type as "Type.Method" ("sequenceBox.setState")
+		match := false
+		switch {
+		case c.fn == nil:
+			match = r.callee == cname
+		case c.dynamic:
+			match = r.callee == cname || r.callee == objKey(c.fn)
+		case c.fn.Type().(*types.Signature).Recv() == nil:
+			match = r.callee == cname
+		default:
+			match = r.callee == objKey(c.fn)
+		}
+		if match {
 			rules = append(rules, r)
 		}
 	}
@@ -868,16 +881,22 @@ func (x *Exec) applyContract(s *State, ct *Contract, fn *types.Func, sig *types.
 	// ghost variables declared by the callee are local to it: at a call site they are fresh, and
 	// clauses about them describe the callee's own bookkeeping (assumed, not asserted, here)
 	var localGhosts []string
+	savedGhosts := map[string]Val{}
 	for _, g := range ct.Ghosts {
 		name := strings.Fields(g)[0]
-		if _, ok := s.ghost[name]; !ok {
-			s.ghost[name] = Val{K: KInt, S: x.eng.fresh("cghost."+name, sInt)}
-			localGhosts = append(localGhosts, name)
+		if cur, ok := s.ghost[name]; ok {
+			savedGhosts[name] = cur // a caller ghost of the same name is a different variable
 		}
+		s.ghost[name] = Val{K: KInt, S: x.eng.fresh("cghost."+name, sInt)}
+		localGhosts = append(localGhosts, name)
 	}
 	defer func() {
 		for _, g := range localGhosts {
-			delete(s.ghost, g)
+			if sv, ok := savedGhosts[g]; ok {
+				s.ghost[g] = sv
+			} else {
+				delete(s.ghost, g)
+			}
 		}
 	}()
 	mentionsLocalGhost := func(src string) bool {
